@@ -10,6 +10,7 @@ its pieces in both runs (`SafeG`).
 -/
 import RioModel.Proofs.FilterTotal
 import RioModel.Proofs.FilterText
+import RioModel.Proofs.FilterChain
 set_option linter.unusedSimpArgs false
 set_option linter.unusedVariables false
 
@@ -206,5 +207,324 @@ theorem run_of_runG : ∀ (cs : List Bytes) (items : List (Stage D E)) (out : By
         injection h with h
         subst h
         simp [Chain.run, Chain.runOuts, f1, Chain.end, hd, f2]
+
+/-! ### each stage is chunk-invariant on safe pieces -/
+
+/-- `seqRun` keeping the outputs apart -/
+def seqRunL (s : HtmlSt) : List Bytes → Option (HtmlSt × List Bytes)
+  | [] => some (s, [])
+  | x :: xs =>
+    match filterHtml tk ev s x with
+    | none => none
+    | some (s1, o1) => (seqRunL s1 xs).map fun r => (r.1, o1 :: r.2)
+
+theorem seqRunL_flat : ∀ (xs : List Bytes) (s : HtmlSt),
+    seqRun tk ev s xs = (seqRunL tk ev s xs).map fun r => (r.1, r.2.flatten)
+  | [], s => rfl
+  | x :: xs, s => by
+    simp only [seqRun, seqRunL]
+    cases filterHtml tk ev s x with
+    | none => rfl
+    | some r =>
+      obtain ⟨s1, o1⟩ := r
+      simp only
+      rw [seqRunL_flat xs s1]
+      cases seqRunL tk ev s1 xs with
+      | none => rfl
+      | some r2 => simp
+
+theorem seqRun_append : ∀ (xs ys : List Bytes) (s : HtmlSt),
+    seqRun tk ev s (xs ++ ys) =
+      match seqRun tk ev s xs with
+      | none => none
+      | some (s1, o1) => (seqRun tk ev s1 ys).map fun r => (r.1, o1 ++ r.2)
+  | [], ys, s => by
+    simp only [List.nil_append, seqRun]
+    cases seqRun tk ev s ys with
+    | none => rfl
+    | some r => simp
+  | x :: xs, ys, s => by
+    simp only [List.cons_append, seqRun]
+    cases filterHtml tk ev s x with
+    | none => rfl
+    | some r =>
+      obtain ⟨s1, o1⟩ := r
+      simp only
+      rw [seqRun_append xs ys s1]
+      cases seqRun tk ev s1 xs with
+      | none => rfl
+      | some r2 =>
+        obtain ⟨s2, o2⟩ := r2
+        simp only [Option.map_some]
+        cases seqRun tk ev s2 ys with
+        | none => rfl
+        | some r3 => simp [List.append_assoc]
+
+
+/-- the pieces a stage receives are safe for it -/
+def StageSafe : Stage D E → List Bytes → Prop
+  | .html s, pieces => SafeRun tk ev s pieces
+  | _, _ => True
+
+/-- what a plain stage makes of the whole stream `b` delivered as one piece followed by `end()` -/
+def stOne : Stage D E → Bytes → Option Bytes
+  | .html s, b => htmlTotal tk ev s b
+  | .text s, b => some (stageTotal s b)
+  | _, _ => none
+
+theorem stFeed_html : ∀ (ps : List Bytes) (s : HtmlSt),
+    stFeed tk ev codec (.html s : Stage D E) ps =
+      (seqRunL tk ev s ps).map fun r => (.html r.1, r.2)
+  | [], s => rfl
+  | p :: ps, s => by
+    simp only [stFeed, seqRunL, Stage.filter]
+    cases filterHtml tk ev s p with
+    | none => rfl
+    | some r =>
+      obtain ⟨s1, o⟩ := r
+      simp only [Option.map_some]
+      rw [stFeed_html ps s1]
+      cases seqRunL tk ev s1 ps with
+      | none => rfl
+      | some r2 => rfl
+
+/-- what a stage emits in total: its outputs for the pieces, then `filter(fin) ++ end()` -/
+def stTotal (st : Stage D E) (ps : List Bytes) (fin : Option Bytes) : Option Bytes :=
+  match stFeed tk ev codec st ps with
+  | none => none
+  | some (st1, os) =>
+    match st1.endWith tk ev codec fin with
+    | (_, none) => none
+    | (_, some nd) => some (os.flatten ++ nd)
+
+theorem toList_flatten (fin : Option Bytes) : fin.toList.flatten = fin.getD [] := by
+  cases fin <;> simp
+
+theorem stTotal_html (s : HtmlSt) (ps : List Bytes) (fin : Option Bytes) (out : Bytes)
+    (h : stTotal tk ev codec (.html s : Stage D E) ps fin = some out) :
+    ∃ s' o, seqRun tk ev s (ps ++ fin.toList) = some (s', o) ∧ out = o ++ endHtml s' := by
+  unfold stTotal at h
+  rw [stFeed_html] at h
+  cases hl : seqRunL tk ev s ps with
+  | none => simp [hl] at h
+  | some r =>
+    obtain ⟨s1, os⟩ := r
+    simp only [hl, Option.map_some] at h
+    have hs : seqRun tk ev s ps = some (s1, os.flatten) := by rw [seqRunL_flat, hl]; rfl
+    cases fin with
+    | none =>
+      simp only [Stage.endWith, Stage.end] at h
+      injection h with h
+      subst h
+      exact ⟨s1, os.flatten, by simpa using hs, rfl⟩
+    | some d =>
+      simp only [Stage.endWith, Stage.filter] at h
+      cases hf : filterHtml tk ev s1 d with
+      | none => simp [hf] at h
+      | some r2 =>
+        obtain ⟨s2, o2⟩ := r2
+        simp only [hf, Option.map_some, Stage.end] at h
+        injection h with h
+        subst h
+        refine ⟨s2, os.flatten ++ o2, ?_, by simp [List.append_assoc]⟩
+        rw [seqRun_append, hs]
+        simp [seqRun, hf]
+
+theorem stFeed_text : ∀ (ps : List Bytes) (s : TextSt),
+    ∃ s1 os, stFeed tk ev codec (.text s : Stage D E) ps = some (.text s1, os) ∧
+      ∀ b, stageTotal s (ps.flatten ++ b) = os.flatten ++ stageTotal s1 b
+  | [], s => ⟨s, [], rfl, fun b => rfl⟩
+  | p :: ps, s => by
+    obtain ⟨s1, os, h1, h2⟩ := stFeed_text ps (filterText s p).1
+    refine ⟨s1, (filterText s p).2 :: os, ?_, ?_⟩
+    · simp only [stFeed, Stage.filter]
+      rw [h1]
+      rfl
+    · intro b
+      simp only [List.flatten_cons, List.append_assoc]
+      rw [stageTotal_filter, h2]
+
+theorem stTotal_text (s : TextSt) (ps : List Bytes) (fin : Option Bytes) :
+    stTotal tk ev codec (.text s : Stage D E) ps fin = some (stageTotal s (ps.flatten ++ fin.getD [])) := by
+  obtain ⟨s1, os, h1, h2⟩ := stFeed_text tk ev codec ps s
+  unfold stTotal
+  rw [h1]
+  simp only
+  cases fin with
+  | none =>
+    rw [endWith_text_none]
+    simp only [Option.getD_none]
+    rw [h2, stageTotal_end]
+  | some d =>
+    rw [endWith_text_some]
+    simp only [Option.getD_some]
+    rw [h2]
+    have := stageTotal_filter s1 d []
+    simp only [List.append_nil] at this
+    rw [this, stageTotal_end]
+
+/-- **A stage is chunk-invariant on safe pieces**: whatever the (non-empty list of) pieces, if they are safe for the
+stage its total output is what it emits for the concatenated stream delivered as one piece. -/
+theorem stage_sci (st : Stage D E) (hp : isPlain st = true) (ps : List Bytes) (fin : Option Bytes)
+    (hne : ps ++ fin.toList ≠ []) (hsafe : StageSafe tk ev st (ps ++ fin.toList)) (out : Bytes)
+    (h : stTotal tk ev codec st ps fin = some out) :
+    stOne tk ev st (ps.flatten ++ fin.getD []) = some out := by
+  cases st with
+  | html s =>
+    obtain ⟨s', o, h1, h2⟩ := stTotal_html tk ev codec s ps fin out h
+    have := seqRun_total tk ev (ps ++ fin.toList) s s' o hne hsafe h1
+    simp only [List.flatten_append, toList_flatten] at this
+    simp only [stOne]
+    rw [this, h2]
+  | text s =>
+    rw [stTotal_text] at h
+    simpa [stOne] using h
+  | decode d => simp [isPlain] at hp
+  | encode e => simp [isPlain] at hp
+
+/-! ### two runs of the same chain on the same stream -/
+
+/-- every stage is safe on the pieces it actually receives in the run -/
+def SafeG : List (Stage D E) → List Bytes → Option Bytes → Prop
+  | [], _, _ => True
+  | st :: rest, ps, fin =>
+    StageSafe tk ev st (ps ++ fin.toList) ∧
+      match stFeed tk ev codec st ps with
+      | none => True
+      | some (st1, os) =>
+        match st1.endWith tk ev codec fin with
+        | (_, none) => True
+        | (_, some nd) => SafeG rest (nonEmpty os) (optB nd)
+
+/-- both runs deliver something to the stage, or neither does -/
+def SameShape (ps : List Bytes) (fin : Option Bytes) (ps' : List Bytes) (fin' : Option Bytes) : Prop :=
+  (ps ++ fin.toList ≠ [] ∧ ps' ++ fin'.toList ≠ []) ∨ (ps = [] ∧ fin = none ∧ ps' = [] ∧ fin' = none)
+
+theorem optB_toList_flatten (b : Bytes) : (optB b).toList.flatten = b := by
+  rw [toList_flatten, optB_getD]
+
+theorem nonEmpty_nil_of_flatten {os : List Bytes} (h : os.flatten = []) : nonEmpty os = [] := by
+  induction os with
+  | nil => rfl
+  | cons o os ih =>
+    simp only [List.flatten_cons, List.append_eq_nil_iff] at h
+    simp only [nonEmpty, List.filter, h.1, List.isEmpty_nil, Bool.not_true]
+    exact ih h.2
+
+theorem sameShape_next (os os' : List Bytes) (nd nd' : Bytes) (h : os.flatten ++ nd = os'.flatten ++ nd') :
+    SameShape (nonEmpty os) (optB nd) (nonEmpty os') (optB nd') := by
+  by_cases hz : os.flatten ++ nd = []
+  · right
+    have hz' : os'.flatten ++ nd' = [] := by rw [← h]; exact hz
+    simp only [List.append_eq_nil_iff] at hz hz'
+    refine ⟨nonEmpty_nil_of_flatten hz.1, by simp [optB, hz.2], nonEmpty_nil_of_flatten hz'.1, by simp [optB, hz'.2]⟩
+  · left
+    have hz' : os'.flatten ++ nd' ≠ [] := by rw [← h]; exact hz
+    constructor
+    · intro hc
+      apply hz
+      have := congrArg List.flatten hc
+      simpa [nonEmpty_flatten, optB_toList_flatten] using this
+    · intro hc
+      apply hz'
+      have := congrArg List.flatten hc
+      simpa [nonEmpty_flatten, optB_toList_flatten] using this
+
+/-- **Two runs of a plain chain on the same stream agree** when no call fails and every stage is safe on the pieces
+it receives in each of the two runs. -/
+theorem runG_stream : ∀ (items : List (Stage D E)) (ps : List Bytes) (fin : Option Bytes) (ps' : List Bytes)
+    (fin' : Option Bytes) (out out' : Bytes), AllPlain items →
+    ps.flatten ++ fin.getD [] = ps'.flatten ++ fin'.getD [] → SameShape ps fin ps' fin' →
+    SafeG tk ev codec items ps fin → SafeG tk ev codec items ps' fin' →
+    runG tk ev codec items ps fin = some out → runG tk ev codec items ps' fin' = some out' → out = out'
+  | [], ps, fin, ps', fin', out, out', _, hs, _, _, _, h, h' => by
+    rw [runG_nil] at h h'
+    injection h with h; injection h' with h'
+    rw [← h, ← h', hs]
+  | st :: rest, ps, fin, ps', fin', out, out', hp, hs, hsh, hsafe, hsafe', h, h' => by
+    rcases hsh with ⟨hne, hne'⟩ | ⟨rfl, rfl, rfl, rfl⟩
+    · rw [runG_cons] at h h'
+      obtain ⟨sf, sg⟩ := hsafe
+      obtain ⟨sf', sg'⟩ := hsafe'
+      cases hfe : stFeed tk ev codec st ps with
+      | none => simp [hfe] at h
+      | some r =>
+        obtain ⟨st1, os⟩ := r
+        cases hfe' : stFeed tk ev codec st ps' with
+        | none => simp [hfe'] at h'
+        | some r' =>
+          obtain ⟨st1', os'⟩ := r'
+          simp only [hfe] at h sg
+          simp only [hfe'] at h' sg'
+          cases hw : st1.endWith tk ev codec fin with
+          | mk st2 x =>
+            cases x with
+            | none => simp [hw] at h
+            | some nd =>
+              cases hw' : st1'.endWith tk ev codec fin' with
+              | mk st2' x' =>
+                cases x' with
+                | none => simp [hw'] at h'
+                | some nd' =>
+                  simp only [hw] at h sg
+                  simp only [hw'] at h' sg'
+                  -- the stage's total output is the same in both runs
+                  have t1 : stTotal tk ev codec st ps fin = some (os.flatten ++ nd) := by
+                    simp [stTotal, hfe, hw]
+                  have t2 : stTotal tk ev codec st ps' fin' = some (os'.flatten ++ nd') := by
+                    simp [stTotal, hfe', hw']
+                  have c1 := stage_sci tk ev codec st (hp st (by simp)) ps fin hne sf _ t1
+                  have c2 := stage_sci tk ev codec st (hp st (by simp)) ps' fin' hne' sf' _ t2
+                  rw [hs] at c1
+                  rw [c1] at c2
+                  injection c2 with c2
+                  exact runG_stream rest (nonEmpty os) (optB nd) (nonEmpty os') (optB nd') out out'
+                    (fun s hs' => hp s (by simp [hs']))
+                    (by rw [nonEmpty_flatten, nonEmpty_flatten, optB_getD, optB_getD]; exact c2)
+                    (sameShape_next os os' nd nd' c2) sg sg' h h'
+    · rw [h] at h'
+      injection h'
+
+/-! ### the Boolean the driver evaluates -/
+
+def stageSafeB : Stage D E → List Bytes → Bool
+  | .html s, pieces => safeRunB tk ev s pieces
+  | _, _ => true
+
+def safeGB : List (Stage D E) → List Bytes → Option Bytes → Bool
+  | [], _, _ => true
+  | st :: rest, ps, fin =>
+    stageSafeB tk ev st (ps ++ fin.toList) &&
+      match stFeed tk ev codec st ps with
+      | none => true
+      | some (st1, os) =>
+        match st1.endWith tk ev codec fin with
+        | (_, none) => true
+        | (_, some nd) => safeGB rest (nonEmpty os) (optB nd)
+
+theorem safeGB_sound : ∀ (items : List (Stage D E)) (ps : List Bytes) (fin : Option Bytes),
+    safeGB tk ev codec items ps fin = true → SafeG tk ev codec items ps fin
+  | [], _, _, _ => trivial
+  | st :: rest, ps, fin, h => by
+    simp only [safeGB, Bool.and_eq_true] at h
+    refine ⟨?_, ?_⟩
+    · cases st with
+      | html s => exact safeRunB_sound tk ev _ s h.1
+      | text s => trivial
+      | decode d => trivial
+      | encode e => trivial
+    · cases hfe : stFeed tk ev codec st ps with
+      | none => trivial
+      | some r =>
+        obtain ⟨st1, os⟩ := r
+        have h2 := h.2
+        simp only [hfe] at h2 ⊢
+        cases hw : st1.endWith tk ev codec fin with
+        | mk st2 x =>
+          cases x with
+          | none => trivial
+          | some nd =>
+            simp only [hw] at h2 ⊢
+            exact safeGB_sound rest _ _ h2
 
 end Rio.Filter
